@@ -662,6 +662,23 @@ def tb_use_@I@(v):
         count = len(names)
     return names, saved.args, saved.__traceback__ is not None
 ''', 'tb_use_@I@(@A@)'),
+    ('same_name', '''
+class Job_@I@:
+    def run_@I@(self, v):
+        inner = Parser_@I@().run_@I@(v)
+        tail = inner + "-job"
+        return "job-done-" + tail
+
+
+class Parser_@I@:
+    def run_@I@(self, v):
+        text = "parsed-%d" % v
+        return text
+
+
+def same_name_@I@(v):
+    return Job_@I@().run_@I@(v)
+''', 'same_name_@I@(@A@)'),
     ('kept_error', '''
 class Outcome_@I@:
     """Keeps the error of a piece of work for whoever asks for the result later (as a future does)."""
